@@ -16,7 +16,7 @@ U128 = (1 << 128) - 1
 I64 = (1 << 63) - 1
 U32 = (1 << 32) - 1
 
-ACCEPT, REJECT, EITHER = "accept", "reject", "either"
+ACCEPT, REJECT, EITHER, IF_ACCEPTED = "accept", "reject", "either", "if-accepted"
 
 
 def lit_case(cat, cell, text, verdict, value=None, ctxs=("init", "expr"), vtype="INT"):
@@ -311,6 +311,12 @@ def address_cases(rng, fill):
                                           ["direct", loc, size or "Nil", comps], ctxs=("at", "addr-expr"), vtype="BOOL"))
         cases.append(lit_case("addr", "%s.incomplete" % loc, "%" + loc + "*", ACCEPT, ["direct", loc, "Unspecified", []],
                               ctxs=("at-incomplete",), vtype="BOOL"))
+    # digit-group underscores inside a component (integer ::= digit {['_'] digit}): accepting them is not demanded of the
+    # lexer, but an accepted address has all its components, with the underscores ignored
+    for text, comps in (("%MW1_000", [1000]), ("%IX1_0.2", [10, 2]), ("%QB0.1_5.7", [0, 15, 7]), ("%MD4_294_967_295", [4294967295]),
+                        ("%IX0_0", [0]), ("%QW1.2_3", [1, 23]), ("%MX1_2.3_4.5_6", [12, 34, 56])):
+        cases.append(lit_case("addr", "underscore", text, IF_ACCEPTED, ["direct", text[1], text[2], comps],
+                              ctxs=("at", "addr-expr"), vtype="BOOL"))
     for _ in range(fill):
         loc = rng.choice("IQM")
         size = rng.choice(["", "X", "B", "W", "D", "L"])
@@ -403,6 +409,8 @@ def judge(case, ctx, obs):
     verdict = case["verdict"]
     if not obs.get("ok"):
         code = obs["diag"]["code"]
+        if verdict == IF_ACCEPTED:
+            return None
         if verdict == ACCEPT:
             return ("rejected-representable", "reject:" + code, obs["diag"]["primary"]["msg"][:160])
         if verdict == REJECT and code not in ("P0002", "P0031"):
@@ -419,6 +427,7 @@ def judge(case, ctx, obs):
         return None
     if verdict == REJECT:
         return ("accepted-unrepresentable", "accepted", {"observed": got})
+    # IF_ACCEPTED: a spelling whose acceptance is not demanded - but when it is accepted, the value is the written one
     want = norm.canon(case["value"])
     if want[0] == "int" and got and got[0] == "int" and want[1] == 0 and got[1] == 0:
         want = [want[0], 0, want[2]]
